@@ -139,7 +139,7 @@ fn leg_padding(ctx: &Ctx, out: &mut Out) {
                 out.evaluations += 1;
                 out.states += 1;
                 match guard(|| check_one(&st, budget, mw, out)) {
-                    Ok(None) => {}
+                    Ok(None) => out.sample(leg, || (label(), format!("budget {budget}; is_budget_valid/get_padding agree with brute force"))),
                     Ok(Some((class, d))) => out.violation(&class, leg, label(), d),
                     Err(p) => out.violation(&panic_class(&p), leg, label(), p),
                 }
